@@ -397,6 +397,7 @@ func fingerprint(v types.Value) string {
 var opNames = []string{
 	"s=NewSet(slice...)", "slice[0]=2", "slice[1]=true", "x=s.Slice()", "x[0]=\"z\"", "x=append(x[:0],3)", "iterate s with early break", "marshal s",
 	"r=NewRecord(map)", "map[a]=2", "delete(map,b)", "map[c]=1", "m=r.Map()", "m[a]=\"z\"", "delete(m,a)", "iterate r with early break", "s2=NewSet(s.Slice()...) then mutate its input",
+	"slice=append(slice,7)",
 }
 
 func apply(w *world, op int) {
@@ -419,9 +420,15 @@ func apply(w *world, op int) {
 		w.prints = append(w.prints, fingerprint(s))
 		w.created = append(w.created, fmt.Sprintf("set#%d", len(w.sets)-1))
 	case 1:
-		w.slice[0] = types.Long(2)
+		if len(w.slice) > 0 {
+			w.slice[0] = types.Long(2)
+		}
 	case 2:
-		w.slice[1] = types.True
+		if len(w.slice) > 1 {
+			w.slice[1] = types.True
+		}
+	case 17:
+		w.slice = append(w.slice, types.Long(7))
 	case 3:
 		if s, ok := lastS(); ok {
 			w.outS = append(w.outS, s.Slice())
@@ -454,11 +461,15 @@ func apply(w *world, op int) {
 		w.prints = append(w.prints, fingerprint(r))
 		w.created = append(w.created, fmt.Sprintf("rec#%d", len(w.recs)-1))
 	case 9:
-		w.rmap["a"] = types.Long(2)
+		if w.rmap != nil {
+			w.rmap["a"] = types.Long(2)
+		}
 	case 10:
 		delete(w.rmap, "b")
 	case 11:
-		w.rmap["c"] = types.Long(1)
+		if w.rmap != nil {
+			w.rmap["c"] = types.Long(1)
+		}
 	case 12:
 		if r, ok := lastR(); ok {
 			w.outM = append(w.outM, r.Map())
@@ -501,6 +512,15 @@ func newWorld(init int) *world {
 	case 0:
 		w.slice = []types.Value{types.Long(1), types.Long(3), types.String("a")}
 		w.rmap = types.RecordMap{"a": types.Long(1), "b": types.NewSet(types.Long(1))}
+	case 2: // empty but non-nil inputs with spare capacity: the degenerate sizes of every copy-on-construct path
+		w.slice = make([]types.Value, 0, 4)
+		w.rmap = types.RecordMap{}
+	case 3: // nil inputs
+		w.slice = nil
+		w.rmap = nil
+	case 4: // single-element inputs, spare capacity
+		w.slice = append(make([]types.Value, 0, 4), types.Long(1))
+		w.rmap = types.RecordMap{"a": types.Long(1)}
 	default:
 		w.slice = []types.Value{types.True, types.Long(1), types.NewSet(types.Long(1))}
 		w.rmap = types.RecordMap{"a": types.NewRecord(types.RecordMap{"k": types.Long(1)}), "b": types.Long(2)}
@@ -513,8 +533,8 @@ func newWorld(init int) *world {
 func immutability(depth int) *core.Family {
 	return &core.Family{
 		Name:   "immutability-histories",
-		Desc:   fmt.Sprintf("BFS depth<=%d over %d operations (construct from slice/map, mutate the input, take Slice()/Map(), mutate the output, iterate with early break, re-marshal) from 2 initial states; invariant: the public fingerprint (reference form + Cedar text + JSON) of every value created so far is unchanged", depth, len(opNames)),
-		N:      2,
+		Desc:   fmt.Sprintf("BFS depth<=%d over %d operations (construct from slice/map, mutate the input, take Slice()/Map(), mutate the output, append to the input, iterate with early break, re-marshal) from 5 initial states (3-element inputs, values already built, empty non-nil inputs with spare capacity, nil inputs, single-element inputs); invariant: the public fingerprint (reference form + Cedar text + JSON) of every value created so far is unchanged", depth, len(opNames)),
+		N:      5,
 		Serial: true,
 		Run: func(t *core.T, i int64) {
 			st := core.BFS(t, len(opNames), depth, 0, func(ct *core.T, path []int) (string, bool) {
